@@ -54,4 +54,4 @@ def check(spec, ctx):
 
 
 def parts():
-    return [Part("rings", check, strategy=G.ring_spec(), strategy_thorough=G.ring_spec(max_n=7), budget={"quick": 1400, "thorough": 80000})]
+    return [Part("rings", check, strategy=G.ring_spec(), strategy_thorough=G.ring_spec(max_n=7), budget={"quick": 1400, "thorough": 80000}, fuzz={"thorough": 6000})]
